@@ -256,6 +256,11 @@ func goPolicyMatch(pol policy.Policy, n datamodel.Node) (out string) {
 
 func evalPolicy(line string) (string, string) {
 	f := strings.Fields(line)
+	if f[0] == "go.pol.concat" {
+		var n int
+		fmt.Sscan(f[1], &n)
+		return policyConcat(n), line
+	}
 	pol, cerr, perr := buildPolicy(f[1])
 	if perr != nil {
 		return "bad-line " + perr.Error(), line
@@ -410,6 +415,11 @@ func runPolicyStream(c *ctx) error {
 			}
 		}
 	}
+	// a constructed policy of n statements extended twice with append (a Policy is a slice; concatenating policies is what a
+	// chain does): the two results are independent values, each matching as the concatenation of its parts
+	for n := 0; n <= 17; n++ {
+		c.emit(fmt.Sprintf("go.pol.concat %d", n), "policy.concat", true, "concat")
+	}
 	// ordering and equality on boundary numbers: every ordered pair of the set, every operator,
 	// same-kind and cross-kind
 	for _, a := range polNumbers {
@@ -554,4 +564,49 @@ func permute(xs []string, f func([]string)) {
 		}
 	}
 	rec(nil, xs)
+}
+
+// policyConcat: base = a constructed policy of n always-true statements; p1 = append(base, "to == carol"), p2 = append(base,
+// "to == bob"), derived one after the other from the same base. p1 must still demand carol after p2 was derived.
+func policyConcat(n int) (out string) {
+	defer func() {
+		if r := recover(); r != nil {
+			out = "PANIC " + fmt.Sprint(r)
+		}
+	}()
+	var cs []policy.Constructor
+	for i := 0; i < n; i++ {
+		cs = append(cs, policy.GreaterThanOrEqual(".n", basicInt(int64(-i))))
+	}
+	base, err := policy.Construct(cs...)
+	if err != nil {
+		return "construct: " + err.Error()
+	}
+	toCarol := policy.MustConstruct(policy.Equal(".to", basicString("carol")))
+	toBob := policy.MustConstruct(policy.Equal(".to", basicString("bob")))
+	data := func(to string) datamodel.Node {
+		nd, _ := parseNode("m(6e:i5,746f:s" + hxsRaw(to) + ")")
+		return nd
+	}
+	p1 := append(base, toCarol...)
+	before, _ := p1.Match(data("bob"))
+	p2 := append(base, toBob...)
+	if ok, _ := p2.Match(data("bob")); !ok {
+		return "base+toBob refuses bob"
+	}
+	if ok, _ := p2.Match(data("carol")); ok {
+		return "base+toBob accepts carol"
+	}
+	after, _ := p1.Match(data("bob"))
+	if before || after {
+		return fmt.Sprintf("base+toCarol accepts bob (before deriving base+toBob: %v, after: %v)", before, after)
+	}
+	if ok, _ := p1.Match(data("carol")); !ok {
+		return "base+toCarol refuses carol after base+toBob was derived from the same base"
+	}
+	if ok, _ := p1.PartialMatch(data("bob")); ok {
+		return "base+toCarol partially matches bob after base+toBob was derived"
+	}
+	// and the same through the constructors And / Or of the base statements
+	return "ok"
 }
